@@ -66,6 +66,23 @@ def rule_a(ctx, idx, A):
                 "the execute call can be reached with the finished flag `%s` not known false: a finished command would execute again" % A.flag,
             )
     good, allstores = value_of_call_stores(cfg, execs, A.memo, sn)
+    computed = [n for n in cfg.find("store", lambda n: n.meta.get("attr") == A.flag and self_attr(n.ast, sn)) if not isinstance(n.meta.get("value"), ast.Constant)]
+    # only a flag computed from local booleans is beyond the typestate (`flag = not interrupted`); one computed from the object's
+    # own state (`flag = self._result is not None`) is read by the rules below as "not set to True"
+    def _local_bool(e):
+        names = {x.id for x in ast.walk(e) if isinstance(x, ast.Name)}
+        attrs = [x for x in ast.walk(e) if isinstance(x, ast.Attribute)]
+        if attrs or not names:
+            return False
+        for nm in names:
+            defs = [n.value for n in own_nodes(fi.node) if isinstance(n, ast.Assign) and any(isinstance(t, ast.Name) and t.id == nm for t in n.targets)]
+            if not defs or not all(isinstance(d, ast.Constant) and isinstance(d.value, bool) for d in defs):
+                return False
+        return True
+
+    computed = [n for n in computed if _local_bool(n.meta.get("value"))]
+    if computed:
+        raise AnalysisError("C01.a: the finished flag is assigned a computed value (`%s`) in Command.run: the typestate argument cannot decide when it becomes true" % K.src(computed[0].meta.get("value")))
     flag_true = cfg.find(
         "store",
         lambda n: n.meta.get("attr") == A.flag and self_attr(n.ast, sn) and isinstance(n.meta.get("value"), ast.Constant) and n.meta["value"].value is True,
@@ -294,6 +311,36 @@ def rule_d(ctx, idx, A):
     ctx.floor("C01.d", "execute bodies scanned", n_exec, 30)
 
 
+def _memo_keeps_commands(idx, fi, call):
+    """`copy.deepcopy(x, memo)` whose memo maps every Command reachable in x to itself: `{id(v): v for v in flatten(<x or its
+    values>) if isinstance(v, Command)}` - references then pass through the copy by identity (nothing is cloned)"""
+    memo = call.args[1] if len(call.args) > 1 else next((k.value for k in call.keywords if k.arg == "memo"), None)
+    if memo is None:
+        return False
+    memo = K.expand(fi, memo)
+    if isinstance(memo, ast.Call) and isinstance(memo.func, (ast.Name, ast.Attribute)):
+        # a one-return helper building the memo
+        t, how = idx.call_targets(fi, memo)
+        if len(t) == 1:
+            rets = [n for n in own_nodes(t[0].node) if isinstance(n, ast.Return) and n.value is not None]
+            if len(rets) == 1:
+                memo, fi = rets[0].value, t[0]
+    if not (isinstance(memo, ast.DictComp) and len(memo.generators) == 1):
+        raise AnalysisError("C01.e: deepcopy is given a memo (`%s`) the analyser cannot read" % K.src(memo)[:60])
+    g = memo.generators[0]
+    v = g.target.id if isinstance(g.target, ast.Name) else None
+    key_ok = isinstance(memo.key, ast.Call) and isinstance(memo.key.func, ast.Name) and memo.key.func.id == "id" and len(memo.key.args) == 1 and isinstance(memo.key.args[0], ast.Name) and memo.key.args[0].id == v
+    val_ok = isinstance(memo.value, ast.Name) and memo.value.id == v
+    filt_ok = len(g.ifs) == 1 and isinstance(g.ifs[0], ast.Call) and isinstance(g.ifs[0].func, ast.Name) and g.ifs[0].func.id == "isinstance" and K.src(g.ifs[0].args[0]) == v and (idx.qualname(fi.module, g.ifs[0].args[1], fi) or "").endswith("commands.Command")
+    it = g.iter
+    deep = isinstance(it, ast.Call) and (idx.qualname(fi.module, it.func, fi) or "").endswith("utils.flatten")
+    if key_ok and val_ok and filt_ok and deep:
+        return True
+    if key_ok and val_ok and filt_ok and not deep:
+        return False  # commands inside lists are not in the memo: those are still cloned
+    raise AnalysisError("C01.e: deepcopy is given a memo (`%s`) the analyser cannot read" % K.src(memo)[:60])
+
+
 def rule_e(ctx, idx, A, rule="C01.e", text=None):
     ctx.rule(
         rule,
@@ -316,6 +363,8 @@ def rule_e(ctx, idx, A, rule="C01.e", text=None):
             for f_ in K.helper_closure(idx, d.execute):
                 for c_ in own_nodes(f_.node):
                     if isinstance(c_, ast.Call) and (idx.qualname(f_.module, c_.func, f_) or "") in ("copy.deepcopy", "pickle.loads") and c_.args:
+                        if _memo_keeps_commands(idx, f_, c_):
+                            continue
                         names = K.names_in(c_.args[0])
                         if (kwn and kwn in names) or f_ is not d.execute or any(nm in names for nm in K.derived_names(d.execute, {kwn} if kwn else set())):
                             clones.append(c_)
